@@ -666,10 +666,53 @@ impl<'tcx> Extractor<'tcx> {
             Const::Val(v, t) => self.constval_json(v, *t),
             Const::Ty(_, ct) => ct.try_to_scalar_int_for_json(ty),
             Const::Unevaluated(uv, _) => {
-                Some(format!("{{\"uneval\":{}}}", js(&tcx.def_path_str(uv.def))))
+                // promoted constant (`&"MAIN"`, `&[..]`): collect the literals of the promoted body
+                let mut lits: Vec<String> = Vec::new();
+                if let Some(pi) = uv.promoted {
+                    if uv.def.is_local() {
+                        let proms = tcx.promoted_mir(uv.def);
+                        if let Some(pb) = proms.get(pi) {
+                            for bbd in pb.basic_blocks.iter() {
+                                for st in bbd.statements.iter() {
+                                    if let StatementKind::Assign(b) = &st.kind {
+                                        self.collect_consts(&b.1, &mut lits);
+                                    }
+                                }
+                            }
+                        }
+                    }
+                }
+                Some(format!(
+                    "{{\"uneval\":{},\"lits\":[{}]}}",
+                    js(&tcx.def_path_str(uv.def)),
+                    lits.join(",")
+                ))
             }
         };
         format!("[\"k\",{},{}]", js(&tys), val.unwrap_or_else(|| "null".to_string()))
+    }
+
+    fn collect_consts(&self, rv: &Rvalue<'tcx>, out: &mut Vec<String>) {
+        let mut push = |op: &Operand<'tcx>| {
+            if let Operand::Constant(c) = op {
+                if let Const::Val(v, t) = &c.const_ {
+                    if let Some(j) = self.constval_json(v, *t) {
+                        out.push(j);
+                    }
+                }
+            }
+        };
+        match rv {
+            Rvalue::Use(op, _) => push(op),
+            Rvalue::Cast(_, op, _) => push(op),
+            Rvalue::Aggregate(_, ops) => {
+                for op in ops.iter() {
+                    push(op);
+                }
+            }
+            Rvalue::Repeat(op, _) => push(op),
+            _ => {}
+        }
     }
 
     fn constval_json(&self, v: &mir::ConstValue, t: Ty<'tcx>) -> Option<String> {
